@@ -42,6 +42,8 @@ ZOO = [
     _c('fractional-start', {'dt'}, start=2010.5, dt=0.5, dur=4, diseases=[SIS], networks=[RND]),
     _c('default-start', {'dt'}, start=None, dt=0.5, dur=4, diseases=[SIS], networks=[RND]),
     _c('start-zero', {'dt'}, start=0, dt=1.0, dur=8, diseases=[SIR], networks=[RND], demographics=[dict(type='deaths', death_rate=30)]),
+    _c('numeric-day-unit', {'unit', 'dt'}, unit='day', start=0, dt=1, dur=30, diseases=[SIS], networks=[RND], demographics=[dict(type='deaths', death_rate=3000)]),
+    _c('numeric-week-unit', {'unit', 'dt'}, unit='week', start=10, dt=2, dur=40, diseases=[SIR0], networks=[RND], use_aging=True),
     # modules on their own timelines
     _c('sis-finer-than-sim', {'own-dt'}, dt=1.0, dur=10, diseases=[dict(SIS, dt=0.5)], networks=[RND]),
     _c('sir-coarser-than-sim', {'own-dt'}, dt=0.5, dur=6, diseases=[dict(SIR, dt=1.0)], networks=[RND]),
